@@ -320,9 +320,19 @@ def check_property(pid, tier, seed):
         return 2
     known = load_known()
     # ---- build first (TLC at many workers starves cargo)
-    for prof, feat in sorted(set((j["profile"], j.get("features")) for j in plan["traces"]), key=str):
-        build_harness(prof, feat)
     results_t, results_mc, extra = [], [], []
+    try:
+        for prof, feat in sorted(set((j["profile"], j.get("features")) for j in plan["traces"]), key=str):
+            build_harness(prof, feat)
+    except ToolError as e:
+        # the drivers no longer compile against the working tree. If the crate itself still builds, the
+        # compile-time probes (C05, C20) can still speak: a rejected ordinary pattern is a verdict, not a tool error
+        done = [fn(tier, seed) for fn in plan.get("special", []) if getattr(fn, "compile_only", False)]
+        if not any(r.get("fails") for r in done):
+            raise e
+        log("harness does not compile against this tree; verdict from the compile-time probes only")
+        extra = done
+        plan = dict(plan, mc=[], traces=[], special=[])
     # ---- (A) model checking: sequentially, using most cores
     for j in plan["mc"]:
         r = run_mc_job(j)
